@@ -37,6 +37,16 @@ func NewCDX(version, encoding string) *CDX {
 }
 
 func (s *CDX) Serialize(bom *sbom.Document, _ *native.SerializeOptions, _ interface{}) (interface{}, error) {
+	if bom == nil {
+		return nil, errors.New("document is nil, unable to serialize to cyclonedx")
+	}
+	if bom.Metadata == nil {
+		return nil, errors.New("document metadata is nil, unable to serialize to cyclonedx")
+	}
+	if bom.NodeList == nil {
+		return nil, errors.New("document node list is nil, unable to serialize to cyclonedx")
+	}
+
 	// Load the context with the CDX value. We initialize a context here
 	// but we should get it as part of the method to capture cancelations
 	// from the CLI or REST API.
@@ -95,8 +105,8 @@ func (s *CDX) Serialize(bom *sbom.Document, _ *native.SerializeOptions, _ interf
 		var lfc cdx.Lifecycle
 
 		if dt.Type == nil {
-			lfc.Name = *dt.Name
-			lfc.Description = *dt.Description
+			lfc.Name = dt.GetName()
+			lfc.Description = dt.GetDescription()
 		} else {
 			lfc.Phase, err = sbomTypeToPhase(dt)
 			if err != nil {
